@@ -93,6 +93,7 @@ func record(seed int64, traces, n int, out string) {
 		tsm := newStorage()
 		tr := newTrieOn(tsm, maxLevel)
 		var committed [][]byte
+		var others []data.Trie // further live instances over the same storage (RecreateKeep / Switch)
 		w.NewTraceWith("New", M{"maxLevel": maxLevel}, M{"x": 0}, M{})
 		for i := 0; i < n; i++ {
 			k := pool[rng.Intn(len(pool))]
@@ -140,6 +141,29 @@ func record(seed int64, traces, n int, out string) {
 				}
 				w.Emit("Commit", M{"x": 0}, M{"err": errFlag(err, p), "rid": rc.rid(h), "empty": bytes.Equal(h, trie.EmptyTrieHash),
 					"lerr": errFlag(lerr, lp), "leaves": leavesJSON(pairs), "nleaves": len(pairs)}, M{})
+			case r < 96 && len(committed) > 0 && len(others) < 3:
+				// recreate while the original stays in use: its own last committed root or an older one
+				root := committed[len(committed)-1]
+				if rng.Intn(2) == 0 {
+					root = committed[rng.Intn(len(committed))]
+				}
+				var t2 data.Trie
+				var err error
+				p := safely(func() { t2, err = tr.Recreate(root) })
+				e := errFlag(err, p)
+				after := -1
+				if e == 0 && t2 != nil {
+					others = append(others, tr)
+					tr = t2
+					if h, he := rootHash(tr); he == "" {
+						after = rc.rid(h)
+					}
+				}
+				w.Emit("RecreateKeep", M{"rid": rc.rid(root)}, M{"err": e, "rid": after}, M{})
+			case r < 98 && len(others) > 0:
+				j := rng.Intn(len(others))
+				tr, others[j] = others[j], tr
+				w.Emit("Switch", M{"i": j + 1}, M{"x": 0}, M{})
 			default:
 				root := trie.EmptyTrieHash
 				if len(committed) > 0 && rng.Intn(8) != 0 {
